@@ -165,8 +165,10 @@ class World:
         if r in self._finished:
             return False
         if r in self._waiting:
-            pred, seen, _ = self._waiting[r]
-            return pred() or seen < self.progress
+            # completion callbacks run eagerly in the completing thread, so the
+            # predicate (a future's done flag) is exact: wake a waiter only
+            # when it can actually proceed
+            return bool(self._waiting[r][0]())
         return True
 
     def _pick(self, me: int | None) -> int | None:
